@@ -210,6 +210,16 @@ def main(argv=None) -> int:
     except ValueError:
         seed = core.mix_seed(os.environ.get("VERIF_SEED"))
     t0 = time.time()
+    # one scratch directory per run: everything the workers, the library under test (its import-time temp
+    # directory) and child processes create goes below it and is removed when the run ends
+    import atexit
+    import shutil
+    import tempfile
+
+    run_tmp = tempfile.mkdtemp(prefix="vfrun-")
+    atexit.register(shutil.rmtree, run_tmp, ignore_errors=True)
+    os.environ["TMPDIR"] = run_tmp
+    tempfile.tempdir = None
     try:
         mod = _load(prop)
     except Exception:
